@@ -457,6 +457,8 @@ var vpTemplates = []string{
 	// call chains with one callback in the prefix expression and another in the arguments
 	/* 41 */ "local \x03 = 0\nlocal r = o:map(function(\x01)\n return \x01 + \x03\nend):filter(function(\x02)\n return \x02 + \x03\nend)\n",
 	/* 42 */ "local s = mk(function(\x01)\n local \x02 = \x01\n return \x02\nend)(function(\x03)\n return \x03\nend)\n",
+	// concatenation chains written without blanks, field accesses and calls as operands
+	/* 43 */ "local \x01 = 1\nlocal \x02 = 2\nlocal \x03 = 3\nlocal k = \x01..\x02..\x03..\x01\nlocal j = t.x..\x02..f(\x03)..\x01\n",
 }
 
 // vpInstantiate fills the holes of template t with symbolic names; tag prefixes the variable names.
